@@ -285,8 +285,8 @@ def k3_runner(which):
             known, new = [], []
             for f in out["oracle_failures"]:
                 sp = f["spec"]
-                if sp["cls"].startswith("MemoryBuffered") and sp.get("buffered"):
-                    known.append(f)
+                if sp["cls"].startswith("MemoryBuffered") and sp.get("buffered") and "failed with RuntimeError" in f["detail"]:
+                    known.append(f)      # the reader iterates the shared container while the writer changes it
                 else:
                     new.append(f)
             out["oracle_failures"] = new
